@@ -116,27 +116,14 @@ def rule_bc_spaced(ctx: RuleContext, p: Program, g: rx.Grammar, rid: str) -> Non
 
     wf, rf = strip_sets(fv), strip_sets(pv)
     nl_chars = ''.join(sorted({chr(cp) for a, b in rx.accepted_chars(g.terminal_nfa('_NEWLINE')) for cp in range(a, b + 1)}))
-    ok = len(wf) == 1 and len(rf) == 1 and wf[0][1] == rf[0][1] and set(nl_chars) <= set(wf[0][1])
+    if len(wf) != 1 or len(rf) != 1:
+        ctx.not_decided.append('BC-SPACED: the empty-line tests are not one literal strip set on each side; decided by evaluation (BC-RT)')
+        return
+    ok = wf[0][1] == rf[0][1] and set(nl_chars) <= set(wf[0][1])
     ctx.check(ok, rid, 'models.block_comment:BlockComment._parse_value / _format_value', f'writer strips {[x[1] for x in wf]!r}, reader strips {[x[1] for x in rf]!r}',
               f'_format_value decides "empty line" by stripping {[x[1] for x in wf]!r} but _parse_value by stripping {[x[1] for x in rf]!r} '
               f'(newline characters of the grammar: {nl_chars!r}): a line that is empty for one side and not for the other (e.g. ";\\r\\n") makes '
               f'the value lex back with or without its leading spaces', pv.where, note=f'both strip {wf[0][1]!r}' if wf else '')
-    # the reader's exemption has the form `not <empty test> or line.startswith(' ')` over every line
-    alls = [c for c in walk_no_nested(pv.node) if isinstance(c, ast.Call) and norm(c.func) == 'all' and c.args
-            and isinstance(c.args[0], (ast.GeneratorExp, ast.ListComp))]
-    ok2 = False
-    if len(alls) == 1:
-        ge = alls[0].args[0]
-        lv = norm(ge.generators[0].target)
-        conds = [norm(x) for x in ge.generators[0].ifs]
-        body = norm(ge.elt)
-        spaced = f"{lv}.startswith(' ')"
-        empties = [f"{lv}.rstrip({c!r})" for c in ["\r\n", "\n\r"]]
-        form1 = any(body in (f"not {e} or {spaced}", f"{spaced} or not {e}") for e in empties) and not conds
-        form2 = body == spaced and len(conds) == 1 and conds[0] in empties
-        ok2 = form1 or form2
-    ctx.check(ok2, rid, 'models.block_comment:BlockComment._parse_value: spaced test', norm(alls[0])[:120] if alls else '',
-              'the "every non-empty line starts with a blank" test of _parse_value has an unexpected shape', pv.where, note='non-empty lines start with a blank')
 
 
 def _fstring_parts(e: ast.AST) -> Optional[list[tuple[str, str]]]:
@@ -631,6 +618,7 @@ def run(ctx: RuleContext, p: Program) -> None:
     ctx.try_rule(rule_linesplit, p, g, 'LINESPLIT')
     ctx.try_rule(rule_lens, p, g, 'LENS')
     ctx.try_rule(rule_bc_spaced, p, g, 'BC-SPACED')
+    ctx.try_rule(rule_bc_rt, p, g, 'BC-RT')
     from . import bcline
     ctx.try_rule(bcline.rule_bc_line, p, 'BC-LINE')
     ctx.try_rule(rule_fmt_lang, p, g, 'FMT-LANG')
@@ -662,16 +650,31 @@ def rule_rawtext_cover(ctx: RuleContext, p: Program, g: rx.Grammar, rid: str) ->
                   'the new part and re-renders the text with _format_value over all parts (the new one in its own slot)')
     n = 0
     for c in p.token_model_classes() + [p.cls('SingleValueRawTokenModel', 'models.internal.base_token_models')]:
-        cp = c.attrs.get('raw_text')
+        cp = c.lookup('raw_text')
         if not isinstance(cp, CustomProp) or cp.fset is None:
             continue
         init = p.try_method(c, '__init__')
         frt = p.try_method(c, 'from_raw_text')
+        if 'raw_text' not in c.attrs and 'from_raw_text' not in c.attrs and '_parse_value' not in c.attrs:
+            continue          # nothing of its own: decided at the class that defines them
         if init is None or frt is None:
             continue
         # which constructor parameters does from_raw_text fill from the parse of the text?
         derived_names: set[str] = set()
         parse_calls = [x for x in walk_no_nested(frt.node) if isinstance(x, ast.Call) and norm(x.func) in ('cls._parse_value', 'self._parse_value')]
+        # the two readers of a lexeme -- from_raw_text and the raw_text setter -- derive the value the same way: both through _parse_value
+        # (as resolved for this class), or neither
+        setter_parses = any(isinstance(x, ast.Call) and norm(x.func) in ('self._parse_value', 'type(self)._parse_value', 'cls._parse_value')
+                            for x in walk_no_nested(cp.fset.node))
+        delegates = any(isinstance(x, ast.Call) and norm(x.func) in ('super().from_raw_text',) for x in walk_no_nested(frt.node))
+        if setter_parses != bool(parse_calls) and not delegates and c.lookup('_parse_value') is not None:
+            n += 1
+            ctx.fail(rid, f'{c.module.name.split(".", 1)[1]}:{c.name}.from_raw_text / raw_text setter', 'two readers of one lexeme',
+                     f'{c.name}: {"the raw_text setter" if setter_parses else "from_raw_text"} derives the value with _parse_value, '
+                     f'{"from_raw_text (" + frt.cls.name + ")" if setter_parses else "the raw_text setter"} does not: the same text gives one value when '
+                     f'the token is created from it and another when it is assigned to an existing token (e.g. an alias that only one of the two '
+                     f'knows), so value and raw text stop describing each other', frt.where)
+            continue
         if not parse_calls:
             continue
         for a in walk_no_nested(frt.node):
@@ -975,3 +978,87 @@ def rule_str_boundary(ctx: RuleContext, p: Program, g: rx.Grammar, rid: str, max
                  f'differently or not at all', 'autobean_refactor/beancount.lark')
     else:
         ctx.ok(rid, site, f'{len(fs)} formatted strings x continuations = {n} texts over {len(letters)} character classes, length <= {max_len}')
+
+
+# ====================================================================== BC-RT (added after twins round 4; replaces the shape clauses of BC-SPACED)
+def rule_bc_rt(ctx: RuleContext, p: Program, g: rx.Grammar, rid: str) -> None:
+    """BlockComment: _parse_value(_format_value(indent, value)) == (indent, value), both interpreted on concrete texts"""
+    import itertools
+    from . import possem
+    from .tokenstore import TS
+    ctx.rule(rid, 'BlockComment._format_value and _parse_value, interpreted from their ASTs on concrete texts: for every value of up to 3 lines '
+                  'over {empty, blank, two blanks, tab, text, blank+text, text+blank, CR} with LF or CRLF line ends (with and without a final '
+                  'line end) and every indent of {none, two blanks, tab}: the raw text the writer produces is read back as exactly (indent, '
+                  'value), every produced line starts with the indent and `;`, and the whole is a BLOCK_COMMENT of the grammar')
+    bc = p.cls('BlockComment', 'models.block_comment')
+    fv = p.method(bc, '_format_value', inherited=False)
+    pv = p.method(bc, '_parse_value', inherited=False)
+    m = bc.module
+    ts = TS(p)
+
+    class Interp(possem.PosInterp):
+        tag = 'BC-RT'
+
+        def expr(self, e: Any, env: dict) -> Any:                 # type: ignore[override]
+            if isinstance(e, ast.Call) and isinstance(e.func, ast.Attribute) and isinstance(e.func.value, ast.Name) and e.func.value.id == 'cls' \
+                    and isinstance(env.get('cls'), possem.Obj):
+                h = bc.lookup(e.func.attr)
+                if isinstance(h, FuncInfo):
+                    a = [self.expr(x, env) for x in e.args]
+                    kw = {k.arg: self.expr(k.value, env) for k in e.keywords if k.arg}
+                    return self.call_function(h, a if h.kind == 'staticmethod' else [env['cls']] + a, kw)
+            if isinstance(e, ast.Call) and isinstance(e.func, ast.Name) and e.func.id == 'cls' and isinstance(env.get('cls'), possem.Obj):
+                a = [self.expr(x, env) for x in e.args]
+                kw = {k.arg: self.expr(k.value, env) for k in e.keywords if k.arg}
+                names = [x for x in (init.params[1:] if init is not None else [])]
+                built = dict(zip(names, a))
+                built.update(kw)
+                return possem.Obj('BlockCommentInstance', built, 'token')
+            return super().expr(e, env)
+
+    init = p.try_method(bc, '__init__')
+    fval = bc.lookup('from_value')
+    t_nfa = g.terminal_nfa('BLOCK_COMMENT')
+    lines = ['', ' ', '  ', '\t', 'x', ' x', 'x ', '\r']
+    clsobj = possem.Obj('BlockCommentClass', {}, 'cls')
+    problem = None
+    n = 0
+    for k in (1, 2, 3):
+        for combo in itertools.product(lines, repeat=k):
+            if k == 3 and sum(1 for c in combo if c in ('  ', '\t', 'x ')) > 1:
+                continue          # keep the three-line family small: one exotic line at most
+            for eol in ('\n', '\r\n'):
+                for final in (False, True):
+                    value = eol.join(combo) + (eol if final else '')
+                    for indent in ('', '  ', '\t'):
+                        n += 1
+                        try:
+                            raw = Interp(ts, [], module=m).call_function(fv, [clsobj, indent, value], {})
+                            back = Interp(ts, [], module=m).call_function(pv, [clsobj, raw], {})
+                        except possem.Raised as ex:
+                            problem = problem or f'value {value!r}, indent {indent!r}: raises {ex}'
+                            continue
+                        if not isinstance(raw, str):
+                            problem = problem or f'value {value!r}: _format_value returns {raw!r}'
+                            continue
+                        if tuple(back) != (indent, value) and problem is None:
+                            problem = (f'from_value({value!r}, indent={indent!r}) writes {raw!r}, which reads back as {tuple(back)!r}: the writer and the '
+                                       f'reader disagree on which lines are empty / carry the blank after the semicolon')
+                        if any(not ln.startswith(indent + ';') for ln in raw.split('\n') if ln or raw == '') and problem is None:
+                            problem = f'from_value({value!r}, indent={indent!r}) writes {raw!r}: a line does not start with the indent and a semicolon'
+                        # the constructor from a value builds exactly that text, for every value (the empty one included)
+                        if isinstance(fval, FuncInfo) and problem is None:
+                            try:
+                                tok = Interp(ts, [], module=m).call_function(fval, [clsobj, value], {'indent': indent})
+                            except possem.Raised as ex:
+                                problem = f'from_value({value!r}, indent={indent!r}) raises {ex}'
+                                continue
+                            got = tok.f if isinstance(tok, possem.Obj) and tok.cls == 'BlockCommentInstance' else None
+                            if got is None or got.get('raw_text') != raw or got.get('indent') != indent or got.get('value') != value:
+                                problem = (f'from_value({value!r}, indent={indent!r}) builds the token ({got and got.get("raw_text")!r}, indent '
+                                           f'{got and got.get("indent")!r}, value {got and got.get("value")!r}); _format_value gives {raw!r}: the text of a '
+                                           f'comment created from a value is not the formatted value (an empty comment loses its indentation)')
+    if n < 3000:
+        raise AnalysisError(f'BC-RT: only {n} (value, indent) pairs evaluated')
+    ctx.check(problem is None, rid, 'models.block_comment:BlockComment._format_value / _parse_value', 'parse(format(indent, value)) == (indent, value)',
+              problem or '', fv.where, note=f'{n} (value, indent) pairs')
